@@ -222,6 +222,10 @@ func (f *FuncCtx) exprMulti(e ast.Expr, env *Env) []Val {
 		return []Val{f.binary(e, env)}
 	case *ast.StarExpr:
 		x := f.expr(e.X, env)
+		if x.Typ == nil {
+			f.fail("deref of untyped value %s", exprStr(e))
+			return []Val{x}
+		}
 		if _, _, ok := ptrStruct(x.Typ); ok {
 			return []Val{f.loadStruct(x, env)}
 		}
